@@ -100,6 +100,13 @@ Theorem tree_objects_are_own_or_another_streams : forall t i,
 Proof. exact CopyTreeFresh.ids_own_or_attached. Qed.
 Print Assumptions tree_objects_are_own_or_another_streams.
 
+(* the other streams' nodes reachable from the copy are those reachable from the caller's tree: the same objects, all of them, in
+   the same order - a back end that walks the copied lambda finds the datasets, executors and metadata it would have found *)
+Theorem lambda_copy_keeps_every_other_streams_node : forall t n,
+  CopyTree.attached (fst (CopyTree.copy t n)) = CopyTree.attached t.
+Proof. exact CopyTreeFresh.copy_keeps_all_attached. Qed.
+Print Assumptions lambda_copy_keeps_every_other_streams_node.
+
 Example lambda_copy_own_objects :
   CopyTreeFresh.own (fst (CopyTree.copy CopyTreeFacts.ex_lambda 9)) = [9; 10; 11; 12; 13; 14; 15; 16; 17] /\
   CopyTreeFresh.own (fst (CopyTree.copy CopyTreeFacts.ex_query_in_lambda 6)) = [6; 7; 8].
